@@ -4,6 +4,7 @@ import VelaVerif.Lemmas.AllocLinear
 import VelaVerif.Lemmas.AllocHc
 import VelaVerif.Lemmas.AllocHcErr
 import VelaVerif.Lemmas.AllocVerify
+import VelaVerif.Lemmas.AllocHcTotal
 /-!
 # C05 — tensor allocators never overlap live buffers and report their true footprint
 
@@ -334,6 +335,32 @@ theorem hc_iterations_bound (infos : Array Info) (minReq memLimit maxIter : Nat)
   unfold searchFuel at this
   simp only [VelaVerif.Gen.AllocConst.hcMinIterationsImprove] at this
   omega
+
+/-- **hc_outcomes**: on valid input — ids are positions, at least one range, alignments > 0,
+    `n · max(size + align) ≤ 2^63` — and for every draws list, iteration limit and memory limit, the
+    model of `allocate_live_ranges` has exactly three possible outcomes: it returns addresses
+    (which then satisfy `hc_ok`/`hc_peak`), it raises Python's `ValueError` (`random.randint` on an
+    empty range, see the witness below), or the supplied oracle list is too short.  In particular
+    all three Python loops terminate: the `search` loop (`hc_search_terminates`), the `while not
+    fits` loop of `allocate_lr` (`hcAllocateLr_terminates`) and the predecessor walk of
+    `add_predecessor_turns` (stale predecessors always point to a range allocated in a later run,
+    or earlier in the same run, so the walk never revisits a range); `indices[turn]` never raises
+    IndexError (`indices` stays a permutation, every stale `turn` is `< n`) and no `-1` address is
+    ever returned (only complete allocations are stored). -/
+theorem hc_outcomes (lrs : List LR) (hw : WellIds lrs) (hne : lrs ≠ []) (C : Nat)
+    (hC : ∀ lr ∈ lrs, lr.size + lr.align ≤ C ∧ 0 < lr.align) (hbound : lrs.length * C ≤ 2 ^ 63)
+    (maxIter : Option Nat) (memLimit : Nat) (draws : List Nat) :
+    (∃ res, hcAllocate lrs maxIter memLimit draws = .ok res) ∨
+    hcAllocate lrs maxIter memLimit draws = .error .value ∨
+    hcAllocate lrs maxIter memLimit draws = .error .draws := by
+  have h := hcAllocate_outcomes lrs hw hne C hC hbound maxIter memLimit draws
+  cases hr : hcAllocate lrs maxIter memLimit draws with
+  | ok res => exact Or.inl ⟨res, rfl⟩
+  | error e =>
+    rw [hr] at h
+    rcases h with h | h
+    · right; left; rw [h]
+    · right; right; rw [h]
 
 /-- `hc_no_randint_error` is **false of the unchanged code**: `attempt_bottleneck_fix` can reach
     `random.randint(0, len(turn_list) - 2)` with a single entry in `turn_list` (stale `turn`
